@@ -20,7 +20,7 @@ import (
 type feHook func(w *feWalker, st *feState, v ssa.Value) (constant.Value, bool)
 
 type feWalker struct {
-	inPhi map[*ssa.Phi]bool // re-entrancy guard of the phi-source fallback
+	inPhi   map[*ssa.Phi]bool // re-entrancy guard of the phi-source fallback
 	Fn      *ssa.Function
 	Assume  map[ssa.Value]constant.Value
 	Hook    feHook // optional: decide calls and other opaque values
